@@ -45,6 +45,10 @@ C = {
     'symbolic execution of rustc MIR of Object::find (default method + closures) on symbolic keys (totality) and on enumerated keys over a symbolic object graph, compared by z3 with a reference resolver; nested vs dotted rules on real solver MIR',
     'No panic for any key within the byte bound; for every enumerated path up to depth D (with indices and malformed shapes) and every object graph within the bounds the returned value is exactly the addressed one or none; nested mapping == dotted key when intermediates are objects.',
     'Object::get on user objects = exact key lookup; Array::iter in order; usize::from_str exact'),
+ 'C11': ('other', '3/C11',
+    'symbolic execution of rustc MIR (dump with --features json) of every AsValue adapter on symbolic inputs; YAML and JSON Number adapters against one abstract number under serde\'s is_*/as_* contract; comparison kernel Int(x) vs UInt(x) by z3',
+    'Partial (adapters only): primitives keep value and signedness for all values; YAML and JSON scalars / numbers map to the same Value with no reachable unreachable!(); Option/Vec/HashSet pass through; the comparison kernel does not distinguish Int(x>=0) from UInt(x).',
+    'serde Number contract modelled; Value variant order read from the registry sources; map lookups and user Document impls outside the claim'),
  'C12': ('other', '3/C12',
     'z3 equivalence of all optimiser outputs of one (rule, switches) on real solver MIR; write guard on every explored path (purity); repeated native optimise() calls for the printed form (concrete)',
     'Order independence and purity are decided over all documents / all explored paths; "prints the same" is decided by repeated concrete runs (labelled); thread schedules are not explored.',
